@@ -55,7 +55,7 @@ for _pid, _why in [
 ]:
     na(_pid, _why)
 
-prop("C02", ["sql_prec", "static_eval", "operator_tpl"],
+prop("C02", ["sql_prec", "static_eval", "operator_tpl", "literals"], select={"literals": lambda n: n.split(".", 1)[1] in ("TL1i", "TL1f", "NE1", "number_expr.safety")},
      not_covered="evaluation inside the database; dialect templates beyond the strengths they declare; sites that build SQL operands "
                  "without translate_operand (process_concat, process_array_in, try_into_between) are not yet under contract")
 claim("C02",
@@ -66,7 +66,7 @@ claim("C02",
       "static_eval_case, maybe_static_eval - verbatim; operator_tpl TP1: a `{x:N}` hole of a std.sql.prql template is translated as an operand of strength N, "
       "a `{x}` hole with the definition's binding_strength, which is what the NP4 rows assume) never changes the value an expression denotes under three-valued logic: not / and / or / eq / ne / neg / "
       "coalesce of literals (SE1), `case` reduced to its first TRUE branch or null, for any number of branches (SE2, loop invariant), ids and spans kept (SE3). "
-      "Table obligations (one per row): for every constructible "
+      "a negative number literal is emitted as a unary minus on its magnitude, so no atom starts with a sign and `-` applied to it is parenthesized instead of forming `--` (literals TL1i, TL1f, NE1). Table obligations (one per row): for every constructible "
       "(parent operator, child class, side) the real strength/associativity tables never leave an operand bare where SQLite's documented "
       "grammar would re-associate it (NP2.*). NOT proved: that the database evaluates operators as documented.",
       "Oracle = SQLite's documented precedence table (the executable grammar here). translate_expr is external (uninterpreted result, "
@@ -258,7 +258,7 @@ claim("C08",
       "sqlparser's Display (leaves doubled quotes alone - read in its source, validated by the thorough-tier sweep on SQLite) and sqlformat (white space only, given "
       "its precondition) are trusted; str::parse, str::replace and format! are uninterpreted; date/time/interval arms are not under contract.")
 
-prop("C07", ["set_ops", "limit_clause", "literals", "rel_names", "cte_define", "sql_prec"], select={"literals": lambda n: n.split(".", 1)[1] in ("EI1", "expr_of_i64.safety"), "sql_prec": lambda n: n.split(".", 1)[1].startswith("NP4.std_neg") or n.endswith(".safety")},
+prop("C07", ["set_ops", "limit_clause", "literals", "rel_names", "cte_define", "sql_prec"], select={"literals": lambda n: n.split(".", 1)[1] in ("EI1", "expr_of_i64.safety", "TL1i", "TL1f", "NE1", "FM1"), "sql_prec": lambda n: n.split(".", 1)[1].startswith("NP4.std_neg") or n.endswith(".safety")},
      not_covered="scope of every table / column reference, per-dialect grammar, empty projections, relation alias uniqueness (assign_names), "
                  "which dialects besides SQLite have no bare OFFSET (MySQL, BigQuery: the handler table is assumed, not executable here)")
 claim("C07",
